@@ -225,6 +225,10 @@ class Env(object):
                     c = code(e)
             self.events.append("i%d.%d=%s" % (b, i, c))
         item.on_computed.subscribe(announced)
+        if self.kind == "debug" and self.body == "new" and i == 1:
+            # a follow-up request issued while the built-in batch is being flushed: from the first item's completion callback
+            # (a cancellation completes the item too, with an error: no follow-up then - the model's body does not run)
+            item.on_computed.subscribe(lambda _f: self.add_item(event=True) if _f.error() is None else None)
         return i
 
     def add_item(self, event=False):
@@ -253,13 +257,13 @@ def canon(events):
     """The order among consecutive item announcements is not prescribed: sort each maximal run."""
     out, run = [], []
     for e in events:
-        if e.startswith("i"):
+        if e.startswith("i") or e.startswith("n"):      # a request made during the flush: canonical position = before the items
             run.append(e)
         else:
-            out += sorted(run)
+            out += sorted(run, key=lambda x: (0 if x.startswith("n") else 1, x))
             run = []
             out.append(e)
-    return out + sorted(run)
+    return out + sorted(run, key=lambda x: (0 if x.startswith("n") else 1, x))
 
 
 def tf(fn):
